@@ -5,7 +5,7 @@ from .. import common, es
 from . import c07
 
 LEVEL = "proof"
-EXTRA_LEAN_MODULES = ["Luqum.Props.GenRuntime"]   # constants of the E-classes and builder defaults (translated)
+EXTRA_LEAN_MODULES = ["Luqum.Props.GenRuntime", "Luqum.Props.GenEs"]   # constants of the E-classes and builder defaults (translated)
 RULE = ("random index schemas and configurations (as C07) x trees of supported constructs incl. BoolOperation x, for "
         "every translated query, 6 random documents (nested objects 0-2 per container and level, truth of each "
         "leaf clause per object drawn at random): the returned bool/nested query is evaluated by a reference "
